@@ -530,15 +530,30 @@ def rewindAndApplyHeaderFork (s : List FHdr) (e : HExt) (f : FHdr) : Except NErr
   | .error err => .error err
   | .ok (forked, fork) => reapply s (e.rewind forked) fork
 
+/-- `chain::types::Options` (bitflags): `NONE = 0`, `SKIP_POW = 1`, `SYNC = 2`, `MINE = 4`.
+`pipe.rs` consults `ctx.opts` in exactly two places, both `contains(Options::SKIP_POW)`
+(`validate_pow_only`, `validate_header`); `SYNC` and `MINE` are only passed on to the adapter. -/
+structure Opts where
+  bits : Nat
+  deriving DecidableEq, Repr
+
+def Opts.NONE : Opts := ⟨0⟩
+def Opts.SKIP_POW : Opts := ⟨1⟩
+def Opts.SYNC : Opts := ⟨2⟩
+def Opts.MINE : Opts := ⟨4⟩
+
+/-- `opts.contains(Options::SKIP_POW)`: bit 0 -/
+def Opts.skipPow (o : Opts) : Bool := o.bits % 2 == 1
+
 /-- `pipe::process_block_headers(headers, sync_head, ctx)` followed by `ctx.batch.commit()`
 (`Chain::sync_block_headers`); on `Err` the batch is dropped and the MMR changes discarded, so
 nothing changes.  The Boolean is "the returned sync head is `Some(last_header)`". -/
-def processBlockHeaders (n : HNode) (skip : Bool) (syncHead : Tip) (batch : List FHdr) :
+def processBlockHeaders (n : HNode) (opts : Opts) (syncHead : Tip) (batch : List FHdr) :
     Except NErr (HNode × Bool) :=
   match batch.getLast? with
   | none => .ok (n, false)
   | some last =>
-    match validateLoop n.ct skip n.hdrs batch with
+    match validateLoop n.ct opts.skipPow n.hdrs batch with
     | .error e => .error (.hdr e)
     | .ok s =>
       match extInit s n.hmmr with
@@ -558,8 +573,8 @@ def processBlockHeaders (n : HNode) (skip : Bool) (syncHead : Tip) (batch : List
             else .ok ({ n with hdrs := s }, some_)
 
 /-- the node after `Chain::sync_block_headers` (unchanged on `Err`) -/
-def syncStep (n : HNode) (skip : Bool) (syncHead : Tip) (batch : List FHdr) : HNode :=
-  match processBlockHeaders n skip syncHead batch with
+def syncStep (n : HNode) (opts : Opts) (syncHead : Tip) (batch : List FHdr) : HNode :=
+  match processBlockHeaders n opts syncHead batch with
   | .ok (n', _) => n'
   | .error _ => n
 
@@ -576,8 +591,8 @@ def checkKnown (n : HNode) (f : FHdr) : Except NErr Unit :=
 extension (`rewind_and_apply_header_fork(&prev_header, …)`, `validate_root`, `apply_header`,
 rolled back unless the header has more work than `header_head`), `add_block_header`,
 `update_header_head` -/
-def pbhApply (n : HNode) (skip : Bool) (f prev : FHdr) : Except NErr HNode :=
-  match validateHeader (ctxFor n.ct skip n.hdrs f) f.h with
+def pbhApply (n : HNode) (opts : Opts) (f prev : FHdr) : Except NErr HNode :=
+  match validateHeader (ctxFor n.ct opts.skipPow n.hdrs f) f.h with
   | .error e => .error (.hdr e)
   | .ok () =>
     match extInit n.hdrs n.hmmr with
@@ -597,7 +612,7 @@ def pbhApply (n : HNode) (skip : Bool) (f prev : FHdr) : Except NErr HNode :=
 `Chain::process_block_header`.  The two short-cuts return `Ok` **without validating**: a header
 "already known" to the body chain, and a header whose hash is in the header store with no more
 work than `header_head` (whatever the delivered copy's other fields say). -/
-def nodeProcessBlockHeader (n : HNode) (skip : Bool) (f : FHdr) : Except NErr HNode :=
+def nodeProcessBlockHeader (n : HNode) (opts : Opts) (f : FHdr) : Except NErr HNode :=
   match checkKnown n f with
   | .error _ => .ok n
   | .ok () =>
@@ -607,16 +622,16 @@ def nodeProcessBlockHeader (n : HNode) (skip : Bool) (f : FHdr) : Except NErr HN
       -- `if let Ok(existing) = get_block_header(&header.hash()) { if !has_more_work(&existing, &header_head) { return Ok(()) } }`
       match getHdr n.hdrs f.hash with
       | some existing =>
-        if existing.h.totalDiff > n.headerHead.totalDiff then pbhApply n skip f prev else .ok n
-      | none => pbhApply n skip f prev
+        if existing.h.totalDiff > n.headerHead.totalDiff then pbhApply n opts f prev else .ok n
+      | none => pbhApply n opts f prev
 
 /-- `Chain::process_block_single(b, opts)`: the header through `process_block_header` (its own
 committed batch), `is_known`, `check_orphan`, then `pipe::process_block` in a second batch
 (dropped on `Err`): `check_known`, `validate_pow_only`, the previous header,
 `process_block_header` again, and the body stages (`validate_block`, the txhashset extension),
 which are the input `bodyOk`.  Returns the node afterwards and the result. -/
-def nodeProcessBlock (n : HNode) (skip : Bool) (f : FHdr) (bodyOk : Bool) : HNode × Except NErr Unit :=
-  match nodeProcessBlockHeader n skip f with
+def nodeProcessBlock (n : HNode) (opts : Opts) (f : FHdr) (bodyOk : Bool) : HNode × Except NErr Unit :=
+  match nodeProcessBlockHeader n opts f with
   | .error e => (n, .error e)
   | .ok n1 =>
     -- `Chain::is_known`
@@ -628,12 +643,12 @@ def nodeProcessBlock (n : HNode) (skip : Bool) (f : FHdr) (bodyOk : Bool) : HNod
     match checkKnown n1 f with
     | .error e => (n1, .error e)
     | .ok () =>
-      if !skip && (!isPrimary n1.ct f.h.edgeBits && !isSecondary f.h.edgeBits) then (n1, .error (.hdr .LowEdgebits)) else
-      if !skip && !f.powOk then (n1, .error (.hdr .InvalidPow)) else
+      if !opts.skipPow && (!isPrimary n1.ct f.h.edgeBits && !isSecondary f.h.edgeBits) then (n1, .error (.hdr .LowEdgebits)) else
+      if !opts.skipPow && !f.powOk then (n1, .error (.hdr .InvalidPow)) else
       match getHdr n1.hdrs f.prevHash with
       | none => (n1, .error (.hdr .Orphan))
       | some _ =>
-        match nodeProcessBlockHeader n1 skip f with
+        match nodeProcessBlockHeader n1 opts f with
         | .error e => (n1, .error e)
         | .ok n2 =>
           if !bodyOk then (n1, .error .Body) else
